@@ -329,6 +329,8 @@ def gen_device(rng) -> dict:
                 else:
                     entries.append(grammar.gen_ace(rng, platform, version, allow_group=False, foreign=False, seq=seq, ws=False,
                                                    max_k=2, allow_neq_multi=True)["text"])
+        if len(entries) > 1 and not numbered and rng.random() < 0.2:
+            entries.insert(rng.randint(1, len(entries)), rng.choice([e for e in entries if not e.startswith("remark")] or entries))
         acls.append({"name": name, "type": acl_type, "entries": entries})
     intfs = {}
     acl_names = [a["name"] for a in acls] + ["UNDEFINED"]
